@@ -57,12 +57,32 @@ static json_object *gen_double(void)
 }
 static json_object *gen_string(void)
 {
+	if (vh_below(40) == 0)
+	{
+		/* a long string (the print buffer grows several times while it is emitted): plain runs, or escapes throughout */
+		static char big[2100];
+		int n = 100 + (int)vh_below(2000), plain = (int)vh_below(2);
+		for (int i = 0; i < n; i++)
+			big[i] = plain || vh_below(6) ? (char)('a' + i % 26) : (char)"\n\"\\/\x01\x7f"[vh_below(6)];
+		return json_object_new_string_len(big, n);
+	}
 	char b[40];
 	int n = (int)vh_below(vh_below(3) ? 6 : 30);
 	static const unsigned char sp[] = {0, 1, 8, 9, 10, 12, 13, 31, 34, 47, 92, 127, 128, 195, 255, 'a', ' '};
 	for (int i = 0; i < n; i++)
 		b[i] = (char)(vh_below(3) ? sp[vh_below(sizeof sp)] : vh_below(256));
 	return json_object_new_string_len(b, n);
+}
+/* now and then a container is wide: more members than the first table size holds (growth, longer probe sequences),
+ * more elements than the first array capacity */
+static int wide_n(void) { return vh_below(25) == 0 ? 12 + (int)vh_below(30) : (int)vh_below(4); }
+static const char *wide_key(int i)
+{
+	static char kb[8][12];
+	static int rot;
+	char *k = kb[rot++ & 7];
+	snprintf(k, 12, "m%d", i);
+	return k;
 }
 static json_object *gen(int depth)
 {
@@ -86,18 +106,18 @@ static json_object *gen(int depth)
 	case 8: case 9:
 	{
 		json_object *a = json_object_new_array();
-		int n = (int)vh_below(4);
+		int n = wide_n();
 		for (int i = 0; i < n; i++)
-			json_object_array_add(a, gen(depth - 1));
+			json_object_array_add(a, gen(n > 4 ? 0 : depth - 1));
 		return a;
 	}
 	default:
 	{
 		json_object *o = json_object_new_object();
-		int n = (int)vh_below(4);
+		int n = wide_n();
 		static const char *keys[] = {"a", "", "k\"q", "sl/ash", "b\\s", "ctl\x01\x1f", "\xc3\xa9", "z z", "tab\t"};
 		for (int i = 0; i < n; i++)
-			json_object_object_add(o, keys[vh_below(9)], gen(depth - 1));
+			json_object_object_add(o, n > 4 ? wide_key(i) : keys[vh_below(9)], gen(n > 4 ? 0 : depth - 1));
 		return o;
 	}
 	}
